@@ -454,14 +454,14 @@ voc_write_header (SF_PRIVATE *psf, int calc_length)
 
 	if (subformat == SF_FORMAT_PCM_U8 && psf->sf.channels == 1)
 	{	/* samplerate = 1000000 / (256 - rate_const) ; */
-		rate_const = 256 - 1000000 / psf->sf.samplerate ;
+		rate_const = 256 - ((psf->sf.samplerate > 0) ? 1000000 / psf->sf.samplerate : 0) ;
 
 		/* First type marker, length, rate_const and compression */
 		psf_binheader_writef (psf, "e1311", BHW1 (VOC_SOUND_DATA), BHW3 ((int) (psf->datalength + 1)), BHW1 (rate_const), BHW1 (0)) ;
 		}
 	else if (subformat == SF_FORMAT_PCM_U8 && psf->sf.channels == 2)
 	{	/* sample_rate = 128000000 / (65536 - rate_short) ; */
-		rate_const = 65536 - 128000000 / psf->sf.samplerate ;
+		rate_const = 65536 - ((psf->sf.samplerate > 0) ? 128000000 / psf->sf.samplerate : 0) ;
 
 		/* First write the VOC_EXTENDED section
 		** 		marker, length, rate_const and compression
@@ -469,7 +469,7 @@ voc_write_header (SF_PRIVATE *psf, int calc_length)
 		psf_binheader_writef (psf, "e13211", BHW1 (VOC_EXTENDED), BHW3 (4), BHW2 (rate_const), BHW1 (0), BHW1 (1)) ;
 
 		/* samplerate = 1000000 / (256 - rate_const) ; */
-		rate_const = 256 - 1000000 / psf->sf.samplerate ;
+		rate_const = 256 - ((psf->sf.samplerate > 0) ? 1000000 / psf->sf.samplerate : 0) ;
 
 		/*	Now write the VOC_SOUND_DATA section
 		** 		marker, length, rate_const and compression
